@@ -19,64 +19,46 @@ Definition after_text (o : op) (a : after) : string :=
   | ANew, OSet _ (TExpr e) => print e
   | ANew, _ => "<ANew without requested expression>"
   end.
-Definition hist := (list string * list obs)%type.
+(* a step of a history: one operation, or several issued concurrently (each with its own outcome and the text of its
+   target's expression after the whole step) *)
+Inductive hstep := HOne (x : obs) | HPar (l : list obs).
+Definition hist := (list string * list hstep)%type.
 
 Definition target (o : op) : string := match o with OSet p _ | OAdd p | ORemove p => p end.
 
-Definition outcome_eqb (a b : outcome) : bool :=
-  match a, b with
-  | Accepted, Accepted | Circular, Circular | ParseError, ParseError | NoPort, NoPort => true
-  | _, _ => false
-  end.
-
 Definition init_graph (ids : list string) : graph := fold_left add_port ids [].
 
+Definition texts_ok (g : graph) (l : list obs) : bool :=
+  forallb (fun '(o, _, a) => String.eqb (after_text o a) (print_opt (lookup g (target o)))) l.
+
+(* some order of serving the concurrent requests one after the other explains every outcome and every resulting text *)
+Definition serial_match (stepf : graph -> op -> graph * outcome) (g : graph) (l : list obs) : option graph :=
+  let try (p : list obs) :=
+    match follows stepf g (map (fun '(o, out, _) => (o, out)) p) with
+    | Some g1 => if texts_ok g1 l then Some g1 else None
+    | None => None
+    end in
+  fold_right (fun p acc => match try p with Some g1 => Some g1 | None => acc end) None (perms l).
+
 (* first step at which the model and the implementation differ *)
-Fixpoint model_bad (g : graph) (steps : list obs) (k : N) : option N :=
+Fixpoint model_bad (g : graph) (steps : list hstep) (k : N) : option N :=
   match steps with
   | [] => None
-  | (o, out, a) :: r =>
-      let s := after_text o a in
-      let '(g', out') := step g o in
-      if outcome_eqb out out' && String.eqb s (print_opt (lookup g' (target o))) then model_bad g' r (N.succ k) else Some k
+  | HOne x :: r => match serial_match step g [x] with Some g' => model_bad g' r (N.succ k) | None => Some k end
+  | HPar l :: r => match serial_match step g l with Some g' => model_bad g' r (N.succ k) | None => Some k end
   end.
 
-(* first step at which the observation contradicts the specification.  g is the graph implied by the observations so far
-   (it is the observed graph as long as no step has been flagged).  After the last step the whole graph must be acyclic;
-   with every := true this is also required after each step. *)
-Definition obs_is (out want : outcome) (s wants : string) : bool := outcome_eqb out want && String.eqb s wants.
-
-Fixpoint spec_bad (every : bool) (g : graph) (steps : list obs) (k : N) : option N :=
+(* first step at which the observation contradicts the specification (Spec.spec_step for a single operation, Spec.par_allowed
+   for concurrent ones).  g is the graph implied by the observations so far.  After the last step the whole graph must be
+   acyclic; with every := true this is also required after each step. *)
+Fixpoint spec_bad (every : bool) (g : graph) (steps : list hstep) (k : N) : option N :=
   match steps with
   | [] => if acyclic_b g then None else Some k
-  | (o, out, a) :: r =>
-      let s := after_text o a in
-      let continue g' := if every && negb (acyclic_b g') then Some k else spec_bad every g' r (N.succ k) in
-      match o with
-      | OSet p t =>
-          match lookup g p with
-          | None => if outcome_eqb out NoPort then continue g else Some k
-          | Some old =>
-              let olds := print_opt (Some old) in
-              match t with
-              | TEmpty => if obs_is out Accepted s "" then continue (update g p None) else Some k
-              | TBad => if obs_is out ParseError s olds then continue g else Some k
-              | TExpr e =>
-                  if closes_cycle_b g p e
-                  then (if obs_is out Circular s olds then continue g else Some k)            (* must be rejected, old kept *)
-                  else (if obs_is out Accepted s (print e) then continue (update g p (Some e)) else Some k)  (* must be accepted *)
-              end
-          end
-      | OAdd p =>
-          match lookup g p with
-          | Some _ => if outcome_eqb out NoPort then continue g else Some k
-          | None => if obs_is out Accepted s "" then continue (add_port g p) else Some k
-          end
-      | ORemove p =>
-          match lookup g p with
-          | Some _ => if obs_is out Accepted s "" then continue (remove_port g p) else Some k
-          | None => if outcome_eqb out NoPort then continue g else Some k
-          end
+  | s :: r =>
+      let l := match s with HOne x => [x] | HPar l => l end in
+      match serial_match spec_step g l with
+      | Some g' => if every && negb (acyclic_b g') then Some k else spec_bad every g' r (N.succ k)
+      | None => Some k
       end
   end.
 
